@@ -54,9 +54,9 @@ GAUSS_TYPES = ["legendre", "legendre01", "hermite", "laguerre", "glaguerre", "ch
 
 
 def shards(tier):
-    k = 1 if tier == "quick" else 25
-    return ([("eig", 400 * k)] * 5 + [("schur", 450 * k)] * 2 + [("herm", 700 * k)] * 3 + [("svd", 550 * k)] * 4 +
-            [("gauss", 400 * k)] * 2)
+    k = 1 if tier == "quick" else 20
+    return ([("eig", 500 * k)] * 5 + [("schur", 600 * k)] * 2 + [("herm", 1100 * k)] * 3 + [("svd", 800 * k)] * 4 +
+            [("gauss", 900 * k)] * 2)
 
 
 # ============================================================================================ exact matrices
@@ -641,7 +641,7 @@ def gen_case(d, shard, tier):
         n = _size(d)
         cplx = d.int(0, 2) == 0
         g = gen_square(d, n, cplx, False)
-        case["fn"] = d.choice(["schur", "schur", "hessenberg"])
+        case["fn"] = d.choice(["hessenberg", "schur", "schur"])
         case["ow"] = d.int(0, 4) == 0
     elif shard == "herm":
         n = _size(d)
